@@ -235,12 +235,13 @@ impl Process for GenEventManager {
                         if let Some(from_pid) = from
                             && let Some(handle) = self.registry.get(&from_pid).await
                         {
-                            handle
+                            // the sender may have ended in the meantime: not an error of the manager
+                            let _ = handle
                                 .send(Message::Regular {
                                     from: None,
                                     body: OwnedTerm::Atom(Atom::new("ok")),
                                 })
-                                .await?;
+                                .await;
                         }
                         return Ok(());
                     } else if tag == &self.call_tag && elements.len() == 4 {
@@ -263,12 +264,13 @@ impl Process for GenEventManager {
                             ]);
 
                             if let Some(handle) = self.registry.get(from_pid).await {
-                                handle
+                                // the caller may have ended in the meantime: not an error of the manager
+                                let _ = handle
                                     .send(Message::Regular {
                                         from: None,
                                         body: reply_msg,
                                     })
-                                    .await?;
+                                    .await;
                             }
                             return Ok(());
                         }
@@ -286,12 +288,13 @@ impl Process for GenEventManager {
                         ]);
 
                         if let Some(handle) = self.registry.get(from_pid).await {
-                            handle
+                            // the caller may have ended in the meantime: not an error of the manager
+                            let _ = handle
                                 .send(Message::Regular {
                                     from: None,
                                     body: reply_msg,
                                 })
-                                .await?;
+                                .await;
                         }
                         return Ok(());
                     }
